@@ -53,8 +53,25 @@ impl crate::TaggedCborSerializable for CoseMac {
     #[verifier::external_body] const TAG: u64 = iana::CborTag::CoseMac as u64;
 }
 
-impl AsCborValue for CoseMac {
-    fn from_cbor_value(value: Value) -> Result<Self> {
+«use crate::header::{prot_ok, prot_res, hdr_ok, hdr_res, hdr_cv, hdr_encodable};
+use crate::encrypt::{recipients_ok, recipients_res, recipients_cv, recipients_encodable, lemma_recipients_array};
+pub open spec fn mac_ok(v: Value) -> bool {
+    v is Array && arr_of(v).len() == 5 && prot_ok(arr_of(v)[0], 0) && hdr_ok(arr_of(v)[1], 0) && is_bytes_or_null(arr_of(v)[2]) && arr_of(v)[3] is Bytes && recipients_ok(arr_of(v)[4])
+}
+pub open spec fn mac_res(v: Value, x: CoseMac) -> bool {
+    prot_res(arr_of(v)[0], 0, x.protected) && hdr_res(arr_of(v)[1], 0, x.unprotected) && payload_res(arr_of(v)[2], x.payload) && arr_of(v)[3] == Value::Bytes(x.tag)
+    && recipients_res(arr_of(v)[4], x.recipients@)
+}
+pub open spec fn mac_cv(x: CoseMac) -> CV {
+    CV::Array(seq![CV::Bytes(prot_slot(x.protected)), hdr_cv(x.unprotected), opt_bytes_cv(x.payload), CV::Bytes(x.tag@), recipients_cv(x.recipients@)])
+}
+pub open spec fn mac_encodable(x: CoseMac) -> bool { prot_encodable(x.protected) && hdr_encodable(x.unprotected) && recipients_encodable(x.recipients@) }
+»
+impl AsCborValue for CoseMac {«
+    open spec fn dec_rel(value: Value, r: Result<Self>) -> bool { (r is Ok <==> mac_ok(value)) && (r matches Ok(x) ==> mac_res(value, x)) }
+    open spec fn enc_rel(self, r: Result<Value>) -> bool { (r is Ok <==> mac_encodable(self)) && (r matches Ok(v) ==> vv(v) == mac_cv(self)) }»
+    fn from_cbor_value(value: Value) -> Result<Self> {«
+        broadcast use crate::vprelude::axiom_question_mark_uses_from;»
         let mut a = value.try_as_array()?;
         if a.len() != 5 {
             return Err(CoseError::UnexpectedItem("array", "array with 5 items"));
@@ -78,8 +95,10 @@ impl AsCborValue for CoseMac {
         })
     }
 
-    fn to_cbor_value(self) -> Result<Value> {
-        Ok(Value::Array(vec![
+    fn to_cbor_value(self) -> Result<Value> {«
+        broadcast use crate::vprelude::axiom_question_mark_uses_from;
+        broadcast use crate::util::axiom_iter_enc_err_vec;»
+        «let r = »Ok(Value::Array(vec![
             self.protected.cbor_bstr()?,
             self.unprotected.to_cbor_value()?,
             match self.payload {
@@ -88,7 +107,9 @@ impl AsCborValue for CoseMac {
             },
             Value::Bytes(self.tag),
             to_cbor_array(self.recipients)?,
-        ]))
+        ]))«;
+        proof { let v = r->Ok_0; lemma_vv_value_array(v); lemma_recipients_array(self.recipients, arr_of(v)[4]); assert(vv_seq(arr_of(v)) =~= mac_cv(self)->Array_0); }
+        r»
     }
 }
 
@@ -250,8 +271,22 @@ impl crate::TaggedCborSerializable for CoseMac0 {
     #[verifier::external_body] const TAG: u64 = iana::CborTag::CoseMac0 as u64;
 }
 
-impl AsCborValue for CoseMac0 {
-    fn from_cbor_value(value: Value) -> Result<Self> {
+«pub open spec fn mac0_ok(v: Value) -> bool {
+    v is Array && arr_of(v).len() == 4 && prot_ok(arr_of(v)[0], 0) && hdr_ok(arr_of(v)[1], 0) && is_bytes_or_null(arr_of(v)[2]) && arr_of(v)[3] is Bytes
+}
+pub open spec fn mac0_res(v: Value, x: CoseMac0) -> bool {
+    prot_res(arr_of(v)[0], 0, x.protected) && hdr_res(arr_of(v)[1], 0, x.unprotected) && payload_res(arr_of(v)[2], x.payload) && arr_of(v)[3] == Value::Bytes(x.tag)
+}
+pub open spec fn mac0_cv(x: CoseMac0) -> CV {
+    CV::Array(seq![CV::Bytes(prot_slot(x.protected)), hdr_cv(x.unprotected), opt_bytes_cv(x.payload), CV::Bytes(x.tag@)])
+}
+pub open spec fn mac0_encodable(x: CoseMac0) -> bool { prot_encodable(x.protected) && hdr_encodable(x.unprotected) }
+»
+impl AsCborValue for CoseMac0 {«
+    open spec fn dec_rel(value: Value, r: Result<Self>) -> bool { (r is Ok <==> mac0_ok(value)) && (r matches Ok(x) ==> mac0_res(value, x)) }
+    open spec fn enc_rel(self, r: Result<Value>) -> bool { (r is Ok <==> mac0_encodable(self)) && (r matches Ok(v) ==> vv(v) == mac0_cv(self)) }»
+    fn from_cbor_value(value: Value) -> Result<Self> {«
+        broadcast use crate::vprelude::axiom_question_mark_uses_from;»
         let mut a = value.try_as_array()?;
         if a.len() != 4 {
             return Err(CoseError::UnexpectedItem("array", "array with 4 items"));
@@ -270,8 +305,9 @@ impl AsCborValue for CoseMac0 {
         })
     }
 
-    fn to_cbor_value(self) -> Result<Value> {
-        Ok(Value::Array(vec![
+    fn to_cbor_value(self) -> Result<Value> {«
+        broadcast use crate::vprelude::axiom_question_mark_uses_from;»
+        «let r = »Ok(Value::Array(vec![
             self.protected.cbor_bstr()?,
             self.unprotected.to_cbor_value()?,
             match self.payload {
@@ -279,7 +315,9 @@ impl AsCborValue for CoseMac0 {
                 Some(b) => Value::Bytes(b),
             },
             Value::Bytes(self.tag),
-        ]))
+        ]))«;
+        proof { let v = r->Ok_0; lemma_vv_value_array(v); assert(vv_seq(arr_of(v)) =~= mac0_cv(self)->Array_0); }
+        r»
     }
 }
 
